@@ -161,3 +161,53 @@ def import_(e):
 
 def filename(e):
     return Filename(e['name'])
+
+
+# ----------------------------------------------------------- whole documents: any nesting of namespaces, any size
+from dznpy.ast import FileContents
+
+KINDS = ('components', 'enums', 'externs', 'filenames', 'foreigns', 'imports', 'interfaces', 'subints', 'systems')
+
+
+def decls_of(kind, item, tree):
+    """the declarations of one kind that a document element contributes, in source order: itself if it is of that kind,
+    the enums / subints nested in an interface, everything inside a namespace (qualified by it, recursively);
+    unknown classes and non-dict elements contribute nothing"""
+    if not isinstance(item, dict):
+        return []
+    cls = item['<class>']
+    if cls == 'namespace':
+        sub = NamespaceTree(tree, scope_name(item['name']).value)
+        return [d for x in item['elements'] for d in decls_of(kind, x, sub)]
+    if cls == 'interface':
+        itf = interface(item, tree)
+        if kind == 'interfaces':
+            return [itf]
+        if kind == 'enums':
+            return [t for t in itf.types.elements if isinstance(t, Enum)]
+        if kind == 'subints':
+            return [t for t in itf.types.elements if isinstance(t, SubInt)]
+        return []
+    if cls == 'component' and kind == 'components':
+        return [component(item, tree)]
+    if cls == 'enum' and kind == 'enums':
+        return [enum(item, tree)]
+    if cls == 'extern' and kind == 'externs':
+        return [extern(item, tree)]
+    if cls == 'file-name' and kind == 'filenames':
+        return [filename(item)]
+    if cls == 'foreign' and kind == 'foreigns':
+        return [foreign(item, tree)]
+    if cls == 'import' and kind == 'imports':
+        return [import_(item)]
+    if cls == 'system' and kind == 'systems':
+        return [system(item, tree)]
+    if cls == 'subint' and kind == 'subints':
+        return [subint(item, tree)]
+    return []
+
+
+def document_decls(kind, root_element):
+    """FileContents.<kind> of a whole document"""
+    top = NamespaceTree()
+    return [d for x in root_element['elements'] for d in decls_of(kind, x, top)]
